@@ -58,6 +58,18 @@ class RecPool(sprocess.EventListenerPool):
             self.rec(self, event, head, before, after)
 
 
+class RecPoolConfig(env.EventListenerPoolConfig):
+    """the real pool configuration; make_group (called by Supervisor.add_process_group) builds the recording pool"""
+    _rec = None
+    _index = None
+
+    def make_group(self):
+        g = RecPool(self)
+        g.rec = self._rec
+        g.index = self._index
+        return g
+
+
 class World(object):
     def __init__(self, pool_cfgs, handler_kind=0, gserial=-1):
         """pool_cfgs: list of (pool_events class-name list, buffer_size, nlisteners, initial pool serial, priority[, process-name prefix])"""
@@ -77,8 +89,14 @@ class World(object):
         # recorders first, so that they run before the pools' callbacks
         events.subscribe(events.Event, self._on_event)
         events.subscribe(events.EventRejectedEvent, self._on_rejected)
+        from supervisor.supervisord import Supervisor
+        self.sup = Supervisor(self.options)      # the real add_process_group / remove_process_group
+        self.handler = handler
+        self.cfgs = pool_cfgs                    # grows when a pool is added
+        self.names = []
+        self.pserial = {}                        # (vid, pool index) -> poolserial, in order of assignment
         self.pools = []
-        for k, c in enumerate(pool_cfgs):
+        for k, c in enumerate(list(pool_cfgs)):
             subs, bufsize, nl, pserial, prio = c[:5]
             # optional 6th field: process-name prefix shared with other pools (names are unique per group
             # only).  Pools with shared names get distinct process priorities, pools with distinct names
@@ -92,6 +110,8 @@ class World(object):
             p.group.index = k
             p.group.serial = pserial
             self.pools.append(p)
+            self.names.append('p%d' % k)
+            self.sup.process_groups['p%d' % k] = p.group
         self.errors_seen = 0
 
     # ---- recorders
@@ -114,6 +134,8 @@ class World(object):
     def _on_accept(self, group, event, head, before, after):
         pi = group.index
         vid = self._vid(event)
+        if (vid, pi) not in self.pserial:
+            self.pserial[(vid, pi)] = event.pool_serials[group.config.name]
         self.effs.append(('ERebuffered %d %s' if head else 'EOffered %d %s') % (pi, zlit(vid)))
         keep = ([event] + before) if head else (before + [event])
         if not _same(after, keep):
@@ -142,10 +164,43 @@ class World(object):
             events.notify(ev)
             return list(self.effs)
         pi = op[1]
+        if kind == 'remove':
+            if pi >= len(self.pools) or self.sup.process_groups.get(self.names[pi]) is not self.pools[pi].group:
+                return ['EInapplicable']
+            try:
+                r = self.sup.remove_process_group(self.names[pi])
+            except Exception as e:       # judged by the monitor: a removal attempt must not raise
+                return ['ERaise (* remove_process_group raised %s *)' % type(e).__name__] + list(self.effs)
+            return ['ERegroup %d' % pi if r else 'ERefused %d' % pi] + list(self.effs)
+        if kind == 'add':
+            # add (again) a pool configured like pool pi, under the same name: a new pool object
+            if pi >= len(self.pools) or self.names[pi] in self.sup.process_groups:
+                return ['EInapplicable']
+            c = self.cfgs[pi]
+            subs, bufsize, nl, _ps, prio = c[:5]
+            prefix = c[5] if len(c) > 5 and c[5] else None
+            k = len(self.pools)
+            RecPoolConfig._rec, RecPoolConfig._index = self._on_accept, k
+
+            def maker(gcfg):
+                assert self.sup.add_process_group(gcfg)
+                return self.sup.process_groups[gcfg.name]
+            p = env.Pool(self.options, self.names[pi], nl, buffer_size=bufsize,
+                         pool_events=[getattr(events, n) for n in subs], handler=self.handler, priority=prio,
+                         proc_priority=(800 + k) if prefix else 999, proc_prefix=prefix,
+                         gconfig_class=RecPoolConfig, maker=maker)
+            self.pools.append(p)
+            self.names.append(self.names[pi])
+            self.cfgs.append(tuple(c[:3]) + (-1,) + tuple(c[4:]))
+            return ['ERegroup %d' % k] + list(self.effs)
+        if pi >= len(self.pools):
+            return ['EInapplicable']
         pool = self.pools[pi]
         if kind in ('dispatch', 'transition'):
             return self._dispatch(pool, pi, kind, op[2])
         i = op[2]
+        if i >= len(pool.procs):
+            return ['EInapplicable']
         self.cur = (pi, i)
         try:
             if kind == 'feed':
@@ -214,7 +269,7 @@ class World(object):
             return 'ERaise (* unparsable envelope *)'
         sid, serial, pname, pserial, ename, ln = m.groups()
         cls = getattr(events.EventTypes, ename.decode(), None)
-        ok = (pname.decode() == 'p%d' % pi and cls is not None and len(rest.decode('utf-8')) == int(ln))
+        ok = (pname.decode() == self.names[pi] and cls is not None and len(rest.decode('utf-8')) == int(ln))
         if not ok:
             return 'ERaise (* envelope header inconsistent *)'
         return 'ESent %d %d %s %s %s T_%s' % (pi, i, zlit(event.vid), zlit(int(serial)), zlit(int(pserial)), cls.__name__)
@@ -242,10 +297,10 @@ class World(object):
     def table_term(self):
         out = []
         for ev in self.table:
-            ps = getattr(ev, 'pool_serials', {})
+            ps = [(pi, v) for (vid, pi), v in self.pserial.items() if vid == ev.vid]
             out.append('(%s, %s, %s)' % (
                 zlit(ev.vid), coq_opt(zlit(ev.serial)) if hasattr(ev, 'serial') else 'None',
-                coq_list(['(%d%%nat, %s)' % (int(k[1:]), zlit(v)) for k, v in ps.items()])))
+                coq_list(['(%d%%nat, %s)' % (pi, zlit(v)) for pi, v in ps])))
         return coq_list(out)
 
 
